@@ -1913,7 +1913,15 @@ impl KotoVm {
             self,
             RemainderAssign,
             remainder_assign,
-            |a: &KNumber, b: &KNumber| a % b,
+            |a: &KNumber, b: &KNumber| {
+                if matches!(b, KNumber::I64(0)) {
+                    // Match the behaviour of `%`: avoid a panic when the divisor is
+                    // an integer zero and return NaN instead.
+                    KNumber::from(f64::NAN)
+                } else {
+                    a % b
+                }
+            },
             lhs,
             rhs
         )
